@@ -8,7 +8,7 @@ RULE = ("case = (generator type, construction path, jds, motif sizes, build call
         "per shuffle); exhaustive small family, ALL permutations: one topology N<=3 (quick) / N<=4 (thorough), entries "
         "<=2, column sums <=4; two topologies N<=2 with sums <=3 (quick) / <=4 (thorough) and N<=3 with entries <=1, "
         "sums <=3; sizes in {1,2,3}; seeded random: N<=12, <=4 topologies, sizes<=5, built-in and "
-        "synthetic callbacks, multi-orbit custom motifs; malformed stream (non-divisible sums, missing sizes/builders, "
+        "synthetic callbacks (results as tuple / list / list of lists; fast and custom generators: the bare edge also as a list [u, v]), multi-orbit custom motifs; malformed stream (non-divisible sums, missing sizes/builders, "
         "zero size, unequal orbit counts) where model and code must raise the same exception class; a share of the random "
         "cases are HISTORIES: 2-3 generations on the same algorithm object and the same jds list object (contents "
         "replaced in place, the previously returned object damaged in between, identical repeats), every call judged "
